@@ -24,7 +24,12 @@
    current wrapper up by key.  VotesManager.round/roundIndex always equal the
    key of the wrapper in the list (set only by clearVotesInfo from NewWrapper),
    so the round/index guards inside VotesManager.newVote/addrVoteInfo are the
-   key look-up.  Go mutexes: one op = one critical section of Voter.lock. *)
+   key look-up.  Go mutexes: one op = one critical section of Voter.lock.
+   Events are values: ECommit / EUpdate carry the vote sets as lists fixed when the
+   event is posted.  That the Go events (which Server.commit packs later, on
+   another goroutine) do not alias the voter's live maps - getVotesInfo copies -
+   cannot be expressed here; the harness checks it on the implementation by
+   keeping every posted event by reference and re-examining it after later ops. *)
 From Coq Require Export List NArith Bool.
 From VF.C02 Require Model.
 Export ListNotations.
